@@ -62,7 +62,8 @@ def test_sentences(lang):
 def words_for(lang, rng=None, n_compounds=400):
     base = [w for w in source_literals(lang) if " " not in w]
     tw = test_words(lang)
-    words = set(base) | set(tw) | set(JUNK)
+    import srcmine
+    words = set(base) | set(tw) | set(JUNK) | set(srcmine.mine()["words"])
     for w in base:
         if w and not w.isdigit():
             for s in SUFFIXES[lang]:
